@@ -329,3 +329,16 @@ HELDOUT6 = [
                  "            elif name[:5] == 't2eri':  # t2eri\n                return \"t2eri_\" + name[len('t2eri'):]\n            elif name != 't2sq':  # arbitrary other tensor\n                return \"_\".join((name, self.space))\n            return name\n        if isinstance(base, KroneckerDelta):  # deltas -> d_oo / d_vv\n            return \"d_%s\" % self.space\n        return None")]),
 ]
 WITNESSES += HELDOUT6
+
+# ---- F55 (tensors without indices are operands, not part of the prefactor) and F54 (einsum subscripts)
+_F55_NEW = ("            if not term.idx and not any(isinstance(o.base, SymbolicTensor)\n"
+            "                                        for o in term.objects):\n")
+ROUND6_DEFECTS = [
+    dict(id="c17-F55-revert", prop="C17", file=G, expect="R17e", old=_F55_NEW,
+         new="            if not term.idx:  # term is just a prefactor\n"),
+    dict(id="c17-F55-twin", prop="C17", file=G, expect=None, old=_F55_NEW,
+         new="            scalar_tensors = [o for o in term.objects\n"
+             "                              if isinstance(o.base, SymbolicTensor)]\n"
+             "            if len(term.idx) == 0 and len(scalar_tensors) == 0:\n"),
+]
+WITNESSES += ROUND6_DEFECTS
